@@ -825,29 +825,32 @@ func runC36(c *Ctx) {
 		if se, ok := as.Lhs[0].(*ast.SelectorExpr); !ok || se.Sel.Name != "Status" {
 			return true
 		}
-		nmap++
-		code := constName(sp, as.Rhs[0])
-		fs := sp.FactsAt(as)
-		nd := func(truth bool) bool {
-			return fs.Has(func(fa *Fact) bool {
-				k := FTrue
-				if !truth {
-					k = FFalse
-				}
-				return fa.Kind == k && sp.IsCall(fa.Call, "spec/tun.IsNoDirect") && sp.Prov(fa.Call.Args[0]) == "param#1"
+		for _, vs := range valueSites(sp, as, as.Rhs[0]) {
+			nmap++
+			code := constName(vs.g, vs.val)
+			fs := sp.FactsAt(vs.at)
+			isErr := func(g *Fn, e ast.Expr) bool { return g.enclosing(e).Prov(e) == "param#1" }
+			nd := func(truth bool) bool {
+				return fs.Has(func(fa *Fact) bool {
+					k := FTrue
+					if !truth {
+						k = FFalse
+					}
+					return fa.Kind == k && sp.IsCall(fa.Call, "spec/tun.IsNoDirect") && isErr(sp, fa.Call.Args[0])
+				})
+			}
+			errSet := fs.Cmp(func(e, tag ast.Expr, truth bool, fa *Fact) bool {
+				be, ok := e.(*ast.BinaryExpr)
+				return ok && truth && be.Op == token.NEQ && isErr(sp, be.X) && isNilIdent(sp.Info, be.Y)
 			})
-		}
-		errSet := fs.Cmp(func(e, tag ast.Expr, truth bool, fa *Fact) bool {
-			be, ok := e.(*ast.BinaryExpr)
-			return ok && truth && be.Op == token.NEQ && sp.Prov(be.X) == "param#1" && isNilIdent(sp.Info, be.Y)
-		})
-		switch code {
-		case "TunnelStatusCode_NO_DIRECT":
-			c.Ob("status-proto", "SendStatusProto#NO_DIRECT-iff-no-direct", as.Pos(), nd(true) && errSet, "NO_DIRECT is reported exactly for no-direct errors")
-		case "TunnelStatusCode_UNKNOWN_ERROR":
-			c.Ob("status-proto", "SendStatusProto#UNKNOWN_ERROR-otherwise", as.Pos(), nd(false) && errSet, "every other error is reported as UNKNOWN_ERROR")
-		default:
-			c.Ob("status-proto", "SendStatusProto#status:"+code, as.Pos(), false, "unexpected status assignment")
+			switch code {
+			case "TunnelStatusCode_NO_DIRECT":
+				c.Ob("status-proto", "SendStatusProto#NO_DIRECT-iff-no-direct", vs.at.Pos(), nd(true) && errSet, "NO_DIRECT is reported exactly for no-direct errors")
+			case "TunnelStatusCode_UNKNOWN_ERROR":
+				c.Ob("status-proto", "SendStatusProto#UNKNOWN_ERROR-otherwise", vs.at.Pos(), nd(false) && errSet, "every other error is reported as UNKNOWN_ERROR")
+			default:
+				c.Ob("status-proto", "SendStatusProto#status:"+code, vs.at.Pos(), false, "unexpected status assignment")
+			}
 		}
 		return true
 	})
